@@ -22,6 +22,50 @@ def _thr_fix(rec, rng, tier):
             lg[i] = math.log2(rng.randint(1, 9) / rng.choice([1, 2, 3, 4, 6]))
     return rec
 
+def _plant_model(rec, rng, tier):
+    """put log2 = log2((p*n + (1-p)*x)/r) for a random integer n on most rows (the hypothesis of C01), PAR rows,
+    extreme log2 values for the non-negativity clause, and threshold-boundary values"""
+    from contracts import vocab as V
+    data = rec["cnarr"]["data"]
+    n = len(data["chromosome"])
+    if not n:
+        return rec
+    build = rec.get("diploid_parx_genome")
+    style_chr = data["chromosome"][0].startswith("chr")
+    xl, yl = ("chrX", "chrY") if style_chr else ("X", "Y")
+    # some rows inside PAR regions when a build is given
+    if build:
+        par = V.PAR[build]
+        for i in range(n):
+            if data["chromosome"][i] in (xl, yl) and rng.random() < 0.5:
+                key = ("PAR1" if rng.random() < 0.5 else "PAR2") + ("X" if data["chromosome"][i] == xl else "Y")
+                lo, hi = par[key]
+                data["start"][i] = lo + rng.randint(0, 1000)
+                data["end"][i] = min(hi, data["start"][i] + rng.randint(1, 5000))
+    p = rec.get("purity")
+    ploidy = rec["ploidy"]
+    for i in range(n):
+        u = rng.random()
+        if u < 0.15:
+            data["log2"][i] = rng.choice([-30.0, -20.0, -8.0, 8.0, 30.0, rng.uniform(-30, 30)])
+            continue
+        if u > 0.85:
+            continue
+        cls = V.cls_of(data["chromosome"][i], data["start"][i], data["end"][i], xl, yl, V.par_of(build))
+        r = V.Rcopies(cls, ploidy, rec["is_haploid_x_reference"])
+        x = V.Xcopies(cls, ploidy, rec["is_sample_female"])
+        nn = rng.randint(0, 12)
+        pp = p if (p is not None and p < 1) else 1.0
+        num = pp * nn + (1 - pp) * x
+        if r > 0 and num > 0:
+            data["log2"][i] = math.log2(num / r)
+    if "baf" in data:
+        data["baf"] = [rng.choice([None, 0.0, 0.1, 0.33, 0.5, 0.77, 1.0, round(rng.random(), 3)]) for _ in range(n)]
+    if "thresholds" in rec and rng.random() < 0.5:
+        rec = _thr_fix(rec, rng, tier)
+    return rec
+
+
 CHROM = Atom("Chrom")
 GENE = Atom("Gene")
 CNA_COLS = dict(chromosome=CHROM, start=Int, end=Int, gene=GENE, log2=NReal)
@@ -94,6 +138,7 @@ contract(
         ("rowcount", "len(result) == len(cnarr.data)"),
         ("missing_log2", "forall(0, len(result), lambda k: implies(isnull(cnarr.data.log2[k]), "
                          "result[k] == Rpure(cnarr.data.chromosome[k], ploidy, is_haploid_x_reference)))"),
+        ("nonneg_int", "forall(0, len(result), lambda k: result[k] >= 0 and result[k] == floor(result[k]))"),
         ("T", "forall(0, len(result), lambda k: forall(0, len(thresholds) + 1, lambda c: "
               "implies(not isnull(cnarr.data.log2[k]) and is_cut(thresholds, c, val(cnarr.data.log2[k])), "
               "result[k] == T_at(c, len(thresholds), val(cnarr.data.log2[k]), "
@@ -104,6 +149,8 @@ contract(
             ("len", "len(absolutes) == len(cnarr.data)"),
             ("missing_log2", "forall(0, i_, lambda k: implies(isnull(cnarr.data.log2[k]), "
                              "absolutes[k] == Rpure(cnarr.data.chromosome[k], ploidy, is_haploid_x_reference)))"),
+            ("nonneg_int", "forall(0, i_, lambda k: not isnull(absolutes[k]) and val(absolutes[k]) >= 0 and "
+                           "val(absolutes[k]) == floor(val(absolutes[k])))"),
             ("T", "forall(0, i_, lambda k: forall(0, len(thresholds) + 1, lambda c: "
                   "implies(not isnull(cnarr.data.log2[k]) and is_cut(thresholds, c, val(cnarr.data.log2[k])), "
                   "absolutes[k] == T_at(c, len(thresholds), val(cnarr.data.log2[k]), "
@@ -141,4 +188,182 @@ contract(
     props=("C01",),
     domain=dict(ploidy=PLOIDY),
     canaries=[("wrong_row", "absolutes[i] = ", "absolutes[0] = ")],
+)
+
+# ----------------------------------------------------------------------------- C01: reference / expected copies per row
+BUILD = Lit(None, "grch37", "grch38")
+_REFEXP_ENS = [
+    ("rowcount", "len(result) == len(cnarr.data)"),
+    ("reference", "forall(0, len(result), lambda k: result.reference[k] == Rcopies(cls_of("
+                  "cnarr.data.chromosome[k], cnarr.data.start[k], cnarr.data.end[k], "
+                  "xlabel_of(cnarr.data.chromosome[0]), ylabel_of(cnarr.data.chromosome[0]), par_of(diploid_parx_genome)), "
+                  "ploidy, is_haploid_x_reference))"),
+    ("expect", "forall(0, len(result), lambda k: result.expect[k] == Xcopies(cls_of("
+               "cnarr.data.chromosome[k], cnarr.data.start[k], cnarr.data.end[k], "
+               "xlabel_of(cnarr.data.chromosome[0]), ylabel_of(cnarr.data.chromosome[0]), par_of(diploid_parx_genome)), "
+               "ploidy, is_sample_female))"),
+    ("other_columns", "forall(0, len(result), lambda k: result.chromosome[k] == cnarr.data.chromosome[k] and "
+                      "result.start[k] == cnarr.data.start[k] and result.end[k] == cnarr.data.end[k] and "
+                      "result.gene[k] == cnarr.data.gene[k] and "
+                      "isnull(result.log2[k]) == isnull(cnarr.data.log2[k]) and "
+                      "implies(not isnull(result.log2[k]), val(result.log2[k]) == val(cnarr.data.log2[k])))"),
+]
+
+contract(
+    "cnvlib/call.py::get_as_dframe_and_set_reference_and_expect_copies",
+    params=dict(cnarr=CNA(), ploidy=Int, is_haploid_x_reference=Bool, diploid_parx_genome=BUILD, is_sample_female=Bool),
+    returns=TabT(reference=Int, expect=Int, **CNA_COLS),
+    requires=["ploidy >= 1"],
+    ensures=_REFEXP_ENS,
+    ghost=dict(frame_exempt_keys=("chr_x", "chr_y")),
+    props=("C01", "C20"),
+    domain=dict(ploidy=PLOIDY),
+    canaries=[("x_expect_swapped", "ploidy if is_sample_female else ploidy // 2", "ploidy // 2 if is_sample_female else ploidy"),
+              ("y_ref_full", '"reference"] = ploidy // 2', '"reference"] = ploidy'),
+              ("pary_not_zeroed", 'df.loc[cnarr.pary_filter(diploid_parx_genome), "expect"] = 0', "pass")],
+)
+
+_CLS_K = ("cls_of(cnarr.data.chromosome[k], cnarr.data.start[k], cnarr.data.end[k], xlabel_of(cnarr.data.chromosome[0]), "
+          "ylabel_of(cnarr.data.chromosome[0]), par_of(diploid_parx_genome))")
+_R_K = "Rcopies(%s, ploidy, is_haploid_x_reference)" % _CLS_K
+_X_K = "Xcopies(%s, ploidy, is_sample_female)" % _CLS_K
+
+lemma("L1_inversion",
+      vars=dict(p=Real, n=Int, x=Int, r=Int, v=Real),
+      requires=["0 < p", "p < 1", "n >= 0", "r > 0", "p * n + (1 - p) * x > 0", "v == log2((p * n + (1 - p) * x) / r)"],
+      ensures=[("inverts", "(r * exp2(v) - x * (1 - p)) / p == n")],
+      props=("C01",), nl=True, notes="the purity formula inverts the mixing model (nonlinear real arithmetic)")
+
+_HYP_N = ("n >= 0 and %s > 0 and purity * n + (1 - purity) * %s > 0 and not isnull(cnarr.data.log2[k]) and "
+          "val(cnarr.data.log2[k]) == log2((purity * n + (1 - purity) * %s) / %s)" % (_R_K, _X_K, _X_K, _R_K))
+_USE_L1 = "use('L1_inversion', p=purity, n=n, x=%s, r=%s, v=val(cnarr.data.log2[k]))" % (_X_K, _R_K)
+
+contract(
+    "cnvlib/call.py::absolute_dataframe",
+    params=dict(cnarr=CNA(), ploidy=Int, purity=Opt(Real), is_haploid_x_reference=Bool, diploid_parx_genome=BUILD,
+                is_sample_female=Bool),
+    returns=TabT(absolute=NReal, expect=Int, reference=Int),
+    requires=["ploidy >= 1", "purity is None or (0 < purity and purity <= 1)"],
+    ensures=[
+        ("rowcount", "len(result) == len(cnarr.data)"),
+        ("reference", "forall(0, len(result), lambda k: result.reference[k] == %s)" % _R_K),
+        ("expect", "forall(0, len(result), lambda k: result.expect[k] == %s)" % _X_K),
+        ("absolute", "forall(0, len(result), lambda k: isnull(result.absolute[k]) == isnull(cnarr.data.log2[k]) and "
+                     "implies(not isnull(cnarr.data.log2[k]), val(result.absolute[k]) == "
+                     "ite(purity is not None and purity < 1, "
+                     "(result.reference[k] * exp2(val(cnarr.data.log2[k])) - result.expect[k] * (1 - purity)) / purity, "
+                     "result.reference[k] * exp2(val(cnarr.data.log2[k])))))"),
+        ("inverts", "implies(purity is not None and purity < 1, forall(0, len(result), lambda k: forall(lambda n: "
+                    "implies(%s and %s, not isnull(result.absolute[k]) and val(result.absolute[k]) == n))))" % (_HYP_N, _USE_L1)),
+    ],
+    ghost=dict(frame_exempt_keys=("chr_x", "chr_y"), nonlinear_clauses=("inverts",)),
+    props=("C01",),
+    domain=dict(ploidy=PLOIDY, purity=PURITY),
+    canaries=[("wrong_columns", 'row["reference"], row["expect"], purity', 'row["expect"], row["reference"], purity')],
+)
+
+contract(
+    "cnvlib/call.py::absolute_clonal",
+    params=dict(cnarr=CNA(), ploidy=Int, purity=Opt(Real), is_haploid_x_reference=Bool, diploid_parx_genome=BUILD,
+                is_sample_female=Bool),
+    returns=SeriesT(NReal, like="cnarr"),
+    requires=["ploidy >= 1", "purity is None or (0 < purity and purity <= 1)"],
+    ensures=[
+        ("rowcount", "len(result) == len(cnarr.data)"),
+        ("absolute", "forall(0, len(result), lambda k: isnull(result[k]) == isnull(cnarr.data.log2[k]) and "
+                     "implies(not isnull(cnarr.data.log2[k]), val(result[k]) == "
+                     "ite(purity is not None and purity < 1, "
+                     "(%s * exp2(val(cnarr.data.log2[k])) - %s * (1 - purity)) / purity, "
+                     "%s * exp2(val(cnarr.data.log2[k])))))" % (_R_K, _X_K, _R_K)),
+        ("inverts", "implies(purity is not None and purity < 1, forall(0, len(result), lambda k: forall(lambda n: "
+                    "implies(%s, not isnull(result[k]) and val(result[k]) == n))))" % _HYP_N),
+    ],
+    ghost=dict(frame_exempt_keys=("chr_x", "chr_y")),
+    props=("C01",),
+    domain=dict(ploidy=PLOIDY, purity=PURITY),
+    canaries=[("wrong_column", 'df["absolute"]', 'df["reference"]')],
+)
+
+contract(
+    "cnvlib/call.py::log2_ratios",
+    params=dict(cnarr=CNA(), absolutes=SeriesT(NReal), ploidy=Int, is_haploid_x_reference=Bool, diploid_parx_genome=BUILD),
+    returns=SeriesT(NReal, like="absolutes"),
+    requires=["ploidy >= 1", "len(absolutes) == len(cnarr.data)"],
+    ensures=[
+        ("rowcount", "len(result) == len(cnarr.data)"),
+        ("rescaled_log2", "forall(0, len(result), lambda k: isnull(result[k]) == isnull(absolutes[k]) and "
+                          "implies(not isnull(absolutes[k]), val(result[k]) == "
+                          "log2(ite(val(absolutes[k]) / ploidy > 0.001, val(absolutes[k]) / ploidy, 0.001)) + "
+                          "ite((%s == 1 and is_haploid_x_reference) or %s == 2, 1, 0)))" % (_CLS_K, _CLS_K)),
+    ],
+    ghost=dict(frame_exempt_keys=("chr_x", "chr_y")),
+    props=("C01",),
+    domain=dict(ploidy=PLOIDY),
+    canaries=[("y_shift_dropped", "ratios[(cnarr.chr_y_filter(diploid_parx_genome)).values] += 1.0", "pass"),
+              ("x_shift_always", "if is_haploid_x_reference:", "if True:")],
+)
+
+# log2(2y) = log2(y) + 1: a fact about the abstract log2 symbol (listed as trusted in the evidence)
+lemma("log2_doubling", vars=dict(y=Real), requires=["y > 0"], ensures=[("double", "log2(2 * y) == log2(y) + 1")],
+      trusted=True, props=("C01",), notes="mathematical identity of the real logarithm; log2 is an abstract symbol here")
+
+lemma("floor_scale",
+      vars=dict(a=Real, d=Real),
+      requires=["d > 0"],
+      ensures=[("cmp", "(a > d / 1000) == (a / d > 1 / 1000)"), ("const", "(d / 1000) / d == 1 / 1000")],
+      props=("C01",), nl=True, notes="flooring n at 0.001*ploidy is flooring n/ploidy at 0.001")
+
+_CNA_REAL = ObjT("CopyNumArray", data=TabT(opt=("baf",), index="range", chromosome=CHROM, start=Int, end=Int, gene=GENE,
+                                           log2=Real, baf=NReal), meta=DictT())
+_RP_K = "Rpure(cnarr.data.chromosome[k], ploidy, is_haploid_x_reference)"
+
+contract(
+    "cnvlib/call.py::do_call",
+    params=dict(cnarr=_CNA_REAL, variants=Lit(None), method=Lit("threshold", "clonal", "none"), ploidy=Int,
+                purity=Opt(Real), is_haploid_x_reference=Bool, is_sample_female=Bool, diploid_parx_genome=BUILD,
+                filters=Lit(None), thresholds=ListT(Real)),
+    returns=ObjT("CopyNumArray", data=TabT(opt=("baf", "cn", "cn1", "cn2"), chromosome=CHROM, start=Int, end=Int, gene=GENE,
+                                           log2=Real, baf=NReal, cn=Int, cn1=NReal, cn2=NReal), meta=DictT()),
+    requires=["ploidy >= 1", "purity is None or (0 < purity and purity <= 1)", "len(thresholds) >= 1",
+              "increasing(thresholds)"],
+    ensures=[
+        ("rowcount", "len(result.data) == len(cnarr.data)"),
+        ("same_bins", "forall(0, len(result.data), lambda k: result.data.chromosome[k] == cnarr.data.chromosome[k] and "
+                      "result.data.start[k] == cnarr.data.start[k] and result.data.end[k] == cnarr.data.end[k] and "
+                      "result.data.gene[k] == cnarr.data.gene[k])"),
+        ("cn_nonneg", "implies(method != 'none', forall(0, len(result.data), lambda k: result.data.cn[k] >= 0))"),
+        ("log2_kept", "implies(purity is None or purity == 1, forall(0, len(result.data), lambda k: "
+                      "result.data.log2[k] == cnarr.data.log2[k]))"),
+        ("threshold_T", "implies(method == 'threshold' and (purity is None or purity == 1), "
+                        "forall(0, len(result.data), lambda k: forall(0, len(thresholds) + 1, lambda c: "
+                        "implies(is_cut(thresholds, c, cnarr.data.log2[k]), result.data.cn[k] == "
+                        "T_at(c, len(thresholds), cnarr.data.log2[k], %s, ploidy)))))" % _RP_K),
+        ("clonal_nearest", "implies(method == 'clonal' and (purity is None or purity == 1), "
+                           "forall(0, len(result.data), lambda k: "
+                           "result.data.cn[k] - %s * exp2(cnarr.data.log2[k]) <= 1/2 and "
+                           "%s * exp2(cnarr.data.log2[k]) - result.data.cn[k] <= 1/2))" % (_RP_K, _RP_K)),
+        ("clonal_inverts", "implies(method == 'clonal' and purity is not None and purity < 1, "
+                           "forall(0, len(result.data), lambda k: forall(lambda n: "
+                           "implies(%s, result.data.cn[k] == n))))" % _HYP_N),
+        ("clonal_rescaled_log2", "implies(method == 'clonal' and purity is not None and purity < 1 and ploidy %% 2 == 0, "
+                                 "forall(0, len(result.data), lambda k: forall(lambda n: implies(%s, "
+                                 "result.data.log2[k] == ite(2 * %s == ploidy, "
+                                 "log2(ite(n / ploidy > 0.001, n / ploidy, 0.001)) + 1, "
+                                 "ite(%s == ploidy, log2(ite(n / ploidy > 0.001, n / ploidy, 0.001)), "
+                                 "log2(ite(n > ploidy / 1000, real(n), ploidy / 1000) / %s)))))))"
+                                 % (_HYP_N, _R_K, _R_K, _R_K)),
+        ("allelic", "implies(method != 'none' and 'baf' in cnarr.data, forall(0, len(result.data), lambda k: "
+                    "(isnull(result.data.cn1[k]) == (isnull(cnarr.data.baf[k]) and result.data.cn[k] > 0)) and "
+                    "(isnull(result.data.cn2[k]) == isnull(result.data.cn1[k])) and "
+                    "implies(not isnull(result.data.cn1[k]), val(result.data.cn1[k]) + val(result.data.cn2[k]) == result.data.cn[k] "
+                    "and 0 <= val(result.data.cn1[k]) and val(result.data.cn1[k]) <= result.data.cn[k] "
+                    "and 0 <= val(result.data.cn2[k]) and val(result.data.cn2[k]) <= result.data.cn[k])))"),
+    ],
+    ghost=dict(frame_exempt_keys=("chr_x", "chr_y")),
+    props=("C01", "C02"),
+    domain=dict(ploidy=PLOIDY, purity=PURITY, thresholds=sorted_reals(1, 12), __fix__=_plant_model),
+    canaries=[("round_to_trunc", 'absolutes.round().clip(0)', 'absolutes.clip(0)'),
+              ("clip_cn_removed", 'absolutes.round().clip(0)', 'absolutes.round()'),
+              ("no_copy", "outarr = cnarr.copy()", "outarr = cnarr"),
+              ("clip_removed", ".clip(0, outarr[\"cn\"])", "")],
 )
